@@ -38,12 +38,17 @@ Step_Conv == (E.ev = "Conv") =>
                /\ C!ConvRel(Pre.b, E.to, E.b, O.M1, O.M2, C!One)
 
 \* --- clauses of C15 at every recorded state
-Cl_RoundTrip == IsChain => C!RoundTrip(O.a, E.a, Cond) /\ C!RoundTrip(O.b, E.b, Cond)
+\* yardstick of the round trip: the fraction itself (relative accuracy for trace fractions; next to 1 this is absolute accuracy)
+Cl_RoundTrip == IsChain => C!RoundTrip(O.a, E.a, FMul(Cond, O.a.p)) /\ C!RoundTrip(O.b, E.b, FMul(Cond, O.b.p))
 Cl_FixesEnds == IsChain => C!FixesEnds(O.a, E.a) /\ C!FixesEnds(O.b, E.b)
 Cl_SumOne    == IsChain => /\ C!SumOne(E.a, E.a.first, E.a.second, C!One)
                            /\ C!SumOne(E.b, E.b.first, E.b.second, C!One)
+\* one ulp of a fraction p next to 1 is a relative error of ulp / (1 - p) of its complement
+RatioCond(o, c) == FAdd(Lit("1.0"), FAdd(FDiv(Lit("1e-3"), FSub(Lit("1.0"), o.p)), FDiv(Lit("1e-3"), FSub(Lit("1.0"), c.p))))
 Cl_RatioLaw  == IsChain => /\ C!RatioLaw(O.a, E.a, O.M1, O.M2, C!One)
                            /\ C!RatioLaw(O.b, E.b, O.M1, O.M2, C!One)
+                           /\ C!RatioLawRel(O.a, E.a, O.M1, O.M2, RatioCond(O.a, E.a))
+                           /\ C!RatioLawRel(O.b, E.b, O.M1, O.M2, RatioCond(O.b, E.b))
 \* strictly increasing; for arguments only a few ulps (or less than the conditioning allows)
 \* apart the images may coincide or differ in the last places, but must not be reordered visibly
 Cl_Monotone  == IsChain => IF O.close THEN C!MonotoneWeak(E.a, E.b) \/ EqTol(E.a.p, E.b.p, Cond)
